@@ -9,7 +9,7 @@ for d in /verif/seeded/C*/; do
   git apply --3way $d/patch.diff >/dev/null 2>&1 || git apply $d/patch.diff || { echo "{\"id\":\"$id\",\"applies\":false}" >> $out; git reset -q --hard HEAD; continue; }
   git reset -q
   cd /verif
-  res=$(/venv/bin/python /verif/check.py check $prop --tier quick 2>/dev/null | grep -v "conda WARNING")
+  res=$(VERIF_REPLAY_DIR=/tmp/wt2/replays_m VERIF_EVIDENCE_DIR=/tmp/wt2/evidence_m /venv/bin/python /verif/check.py check $prop --tier quick 2>/dev/null | grep -v "conda WARNING")
   rc=$?
   sig=$(echo "$res" | grep -m1 "signature=" | sed 's/.*signature=\(\[[^]]*\]\).*/\1/')
   nviol=$(echo "$res" | grep -m1 "^\[" | sed -n "s/.*'violation': \([0-9]*\).*/\1/p")
